@@ -83,6 +83,20 @@ class Par(param.Parameterized):
         super().__init__(**params)
         self.log = []
         self.extra = {"n": 0}
+        self._lock = ["not part of the state"]
+
+    # the usual way to customise the state: take the superclass's, drop what must not travel, put it back on arrival
+    def __getstate__(self):
+        state = super().__getstate__()
+        state.pop("_lock", None)
+        return state
+
+    def __setstate__(self, state):
+        super().__setstate__(state)
+        self._lock = ["not part of the state"]
+
+    def note(self, tag, *events):
+        self.log.append(("note", tag, self.a))
 
     @param.depends("a", watch=True)
     def on_a(self):
@@ -115,6 +129,20 @@ class ParNoSubDep(param.Parameterized):
         super().__init__(**params)
         self.log = []
         self.extra = {"n": 0}
+        self._lock = ["not part of the state"]
+
+    # the usual way to customise the state: take the superclass's, drop what must not travel, put it back on arrival
+    def __getstate__(self):
+        state = super().__getstate__()
+        state.pop("_lock", None)
+        return state
+
+    def __setstate__(self, state):
+        super().__setstate__(state)
+        self._lock = ["not part of the state"]
+
+    def note(self, tag, *events):
+        self.log.append(("note", tag, self.a))
 
     @param.depends("a", watch=True)
     def on_a(self):
